@@ -769,7 +769,7 @@ def verify_unit(unit, seed=0, rlimit=None, do_canary=True, mutant=None):
         r["canary"] = {"functions": len(fn_items), "rejected": len(fn_items) - len(vac), "vacuous": vac,
                        "rounds": len(rounds), "undecided": cundec, "wall": round(cwall, 2)}
         if vac:
-            an["undecided"].append("vacuity canary: `ensures false` verified for " + ", ".join(vac))
+            an["undecided"].append("vacuity canary: `ensures false` verified for " + ", ".join(vac[:4]) + (f" (+{len(vac) - 4} more)" if len(vac) > 4 else ""))
         # canary tool errors (other than the expected failures) indicate a broken unit
         for u in sorted(set(cundec)):
             if not u.startswith("solver") and u not in an["undecided"]:
@@ -1199,7 +1199,7 @@ def cmd_unit(args):
         print("\n".join(r["res"].get("stderr_other", [])[:40]))
     if r["canary"]:
         c = r["canary"]
-        print(f"canary: {c['rejected']}/{c['functions']} functions reject `ensures false`; vacuous={c['vacuous']}")
+        print(f"canary: {c['rejected']}/{c['functions']} functions reject `ensures false`; vacuous={c['vacuous'][:4]}")
     return 0 if not an["failures"] and not an["undecided"] else 1
 
 
